@@ -41,6 +41,7 @@ class Scoping(object):
         self.n = 0
         # actions created early and entered (once) later, possibly under another current action
         self.pre = []
+        self.finished = []  # actions whose end message is already logged
 
     def top(self):
         return self.stack[-1] if self.stack else None
@@ -82,13 +83,16 @@ class Scoping(object):
         self.maxdepth_seen = max(self.maxdepth_seen, depth)
         while self.budget > 0:
             ops = ["exit", "msg", "task"]
+            full = self.ctx.shard.get("ops", "all") == "all"
             if depth < self.max_depth:
                 ops += ["with", "ctx", "run", "gen"]
                 if self.stack:
                     ops += ["re-ctx", "re-run"]
-                if self.pre:
+                if full and self.pre:
                     ops += ["with-pre", "ctx-pre"]
-            if len(self.all_actions) < 6:
+                if full and self.finished:
+                    ops += ["ctx-finished", "run-finished"]
+            if full and len(self.all_actions) < 6:
                 ops.append("make")
             for j in range(1, depth + 1):
                 ops.append(("raise", j))
@@ -142,6 +146,11 @@ class Scoping(object):
             a = self.stack[ctx.choose(len(self.stack), "which enclosing action")]
             self.flags.add("reentry")
             fresh = False
+        elif op in ("ctx-finished", "run-finished"):
+            a = self.finished[ctx.choose(len(self.finished), "which finished action")]
+            self.flags.add("finished-reentry")
+            fresh = False
+            op = "ctx" if op == "ctx-finished" else "run"
         elif op in ("with-pre", "ctx-pre"):
             a = self.pre.pop(ctx.choose(len(self.pre), "which pre-created action"))
             self.flags.add("entered-elsewhere")
@@ -192,6 +201,8 @@ class Scoping(object):
         if fresh and op in ("ctx", "run"):
             a.finish(err)
             self.expect("after explicit finish")
+        if (fresh or op == "with") and a not in self.finished:
+            self.finished.append(a)
         if err is not None:
             self.ops.append(")!")
             exc, j = self.in_flight
@@ -232,8 +243,11 @@ def E1() -> bool:
 
 
 def _shards(tier):
-    s = {"N": 4, "D": 3} if tier == "quick" else {"N": 5, "D": 4}
-    return [dict(s, prefix=p) for p in enumerate_prefixes(body_E1, "X", {}, s, 2 if tier == "quick" else 3)]
+    cfgs = [{"N": 4, "D": 3, "ops": "core"}, {"N": 3, "D": 3, "ops": "all"}] if tier == "quick" else [{"N": 5, "D": 4, "ops": "core"}, {"N": 4, "D": 3, "ops": "all"}]
+    out = []
+    for s in cfgs:
+        out += [dict(s, prefix=p) for p in enumerate_prefixes(body_E1, "X", {}, s, 2 if tier == "quick" else 3)]
+    return out
 
 
 OBLIGATIONS = [
@@ -245,8 +259,8 @@ OBLIGATIONS = [
         desc="all nestings of with/context()/run()/re-entry/generator-close/start_task/log_message: current_action() tracks a reference stack; placement of logged items follows the current action",
         functions=["Action.__enter__", "Action.__exit__", "Action.context", "Action.run", "current_action", "start_action", "start_task", "log_message", "Action.child"],
         shards=_shards,
-        twin=[{"N": 4, "D": 3, "twin_label": "inner-raise"}],
+        twin=[{"N": 4, "D": 3, "ops": "core", "twin_label": "inner-raise"}],
         timeout={"quick": 100, "thorough": 1200},
-        bounds={"quick": "<= 4 ops, depth <= 3; ops: with / context() / run() on a new action, with/context() on an action created earlier under another current action, context()/run() re-entering any enclosing action, generator body closed early, start_task, log_message, exit, raise caught j levels out", "thorough": "<= 5 ops, depth <= 4"},
+        bounds={"quick": "<= 4 ops with the core op set (no pre-created / finished actions) and <= 3 ops with all ops, depth <= 3; ops: with / context() / run() on a new action, with/context() on an action created earlier under another current action, context()/run() of an action that has already finished, context()/run() re-entering any enclosing action, generator body closed early, start_task, log_message, exit, raise caught j levels out", "thorough": "<= 5 ops (core) / <= 4 ops (all), depth <= 4"},
     ),
 ]
